@@ -28,8 +28,16 @@ def unescape(s):
 def parse_log(path, storedir):
     """Calls of the main thread, in order: dicts {call, mutating, path, data, offset}."""
     calls = []
-    main = None
     sd = os.path.realpath(storedir) + "/"
+    # the thread the history runs on (crashdrive pins its goroutine with LockOSThread): the one with the most calls into the store
+    # directory - it is usually, but not always, the first thread of the log
+    per_tid = {}
+    with open(path, errors="replace") as f:
+        for line in f:
+            m = LINE.match(line)
+            if m and sd in m.group(3):
+                per_tid[m.group(1)] = per_tid.get(m.group(1), 0) + 1
+    main = max(per_tid, key=per_tid.get) if per_tid else None
     with open(path, errors="replace") as f:
         for line in f:
             m = LINE.match(line)
